@@ -6,12 +6,16 @@ package engine
 //   * every node filed in an instance's working memory is reachable from that instance's own rule entries, and every
 //     expression / atom / variable the instance's rules reach is filed,
 //   * no node of an instance is a node of the blueprint or of the other instance (no sharing),
-//   * the instance files the same keys as the blueprint, and re-using the instance gives the results of a fresh one.
+//   * the instance files the same keys as the blueprint, and re-using the instance gives the results of a fresh one,
+//   * under every variable the instance's two invalidation indexes list what the blueprint's list (compared by snapshot).
 
 import (
 	"fmt"
 	"reflect"
+	"sort"
+	"strings"
 	"testing"
+	"unsafe"
 
 	"github.com/hyperjumptech/grule-rule-engine/ast"
 	"github.com/hyperjumptech/grule-rule-engine/builder"
@@ -113,6 +117,32 @@ func wmCloneFiled(kb *ast.KnowledgeBase) (map[uintptr]string, map[string]int) {
 	return filed, keys
 }
 
+// the two invalidation indexes as text: variable snapshot -> sorted snapshots of the expressions / atoms listed under it. An instance
+// must list under (the clone of) every variable exactly what the blueprint lists (seed C09h: method-call atoms dropped from the
+// instance's index only, so the instance forgets less than the library's rules do).
+func wmCloneIndexShape(kb *ast.KnowledgeBase) map[string]string {
+	shape := map[string]string{}
+	wm := reflect.ValueOf(kb.WorkingMemory).Elem()
+	for _, name := range []string{"expressionVariableMap", "expressionAtomVariableMap"} {
+		it := wm.FieldByName(name).MapRange()
+		for it.Next() {
+			v := (*ast.Variable)(unsafe.Pointer(it.Key().Pointer()))
+			var elems []string
+			for i := 0; i < it.Value().Len(); i++ {
+				p := unsafe.Pointer(it.Value().Index(i).Pointer())
+				if name == "expressionVariableMap" {
+					elems = append(elems, (*ast.Expression)(p).GetSnapshot())
+				} else {
+					elems = append(elems, (*ast.ExpressionAtom)(p).GetSnapshot())
+				}
+			}
+			sort.Strings(elems)
+			shape[name+"|"+v.GetSnapshot()] = strings.Join(elems, " ; ")
+		}
+	}
+	return shape
+}
+
 func wmCloneRun(kb *ast.KnowledgeBase, f wmCloneFact) (wmCloneFact, string) {
 	f.Arr = append([]int64(nil), f.Arr...)
 	m := map[string]int64{}
@@ -180,6 +210,16 @@ func TestBoundedWorkingMemoryClone(t *testing.T) {
 				if keys[k] != n {
 					t.Fatalf("CONFIRMED: instance %d of corpus entry %d does not file %q like the blueprint does\n%s", idx+1, ci, k, grl)
 				}
+			}
+			blueShape, shape := wmCloneIndexShape(blue), wmCloneIndexShape(inst)
+			for k, want := range blueShape {
+				cases++
+				if got, ok := shape[k]; !ok || got != want {
+					t.Fatalf("CONFIRMED: instance %d of corpus entry %d lists under %q [%s], the blueprint [%s] (what an assignment to that variable forgets differs between instance and library)\n%s", idx+1, ci, k, got, want, grl)
+				}
+			}
+			if len(shape) != len(blueShape) {
+				t.Fatalf("CONFIRMED: instance %d of corpus entry %d indexes %d variables, the blueprint %d\n%s", idx+1, ci, len(shape), len(blueShape), grl)
 			}
 			if len(keys) != len(blueKeys) {
 				t.Fatalf("CONFIRMED: instance %d of corpus entry %d files %d snapshot keys, the blueprint %d\n%s", idx+1, ci, len(keys), len(blueKeys), grl)
